@@ -123,13 +123,18 @@ def run_job(job):
         for k1 in range(1, N + 1):
             for k2 in range(k1 + 1, min(N, k1 + 10) + 1):
                 plans.append([(k1, "temporary", "before"), (k2, "disconnected", "before")])
-    for plan in plans:
+    has_later_user_op = sum(1 for a in hist if a in ("UL", "UR")) >= 2
+    plans = [(pl, False) for pl in plans] + ([(pl, True) for pl in plans if len(pl) == 1] if has_later_user_op else [])
+    for plan, users_now in plans:
         w = drv.make_world(job)
         try:
             w.plan = plan
             for a in hist:
                 if a in w.actions():
+                    nf = len(w.fired)
                     w.act(a)
+                    if users_now and len(w.fired) > nf:
+                        P.remaining_user_ops(w)     # the users keep working while the engine is backing off
             steps += len(hist)
             n_eval += 1
             bad = None
@@ -160,9 +165,12 @@ def run_job(job):
                 sig = "%s:%s:%s:%s:%s" % (kind, phase, where, bad[0], digest(json.dumps(bad[1], sort_keys=True, default=repr)))
                 if len(plan) > 1:
                     sig = "pair:" + sig
+                if users_now:
+                    sig = "users-act-during-backoff:" + sig
                 if sig not in vs:
                     vs[sig] = viol("fault-" + bad[0].split(":")[0], sig,
-                                   {"plan": [list(p) for p in plan], "call": where, "base_hist": hist, "observed": bad[1],
+                                   {"plan": [list(p) for p in plan], "users_act_right_after_fault": users_now, "call": where,
+                                    "base_hist": hist, "observed": bad[1],
                                     "fired": [list(map(str, f)) for f in w.fired]})
                     vs[sig]["hist"] = hist + ["SETTLE"]
         finally:
